@@ -31,6 +31,8 @@ def run_property(prop, tier, seed):
            "mc_runs": [], "trace_runs": [], "cases_replayed": 0, "events_validated": 0,
            "build_s": round(bt, 1), "rule": rc.get("rule", ""), "checker_cmd": "./check %s %s" % (prop, tier)}
     violations = []     # (tag, ops, note)
+    distinct = set()
+    outcomes = {}
     known_hits = []
 
     # ---- optional pre-step (e.g. feature builds) implemented by the recipe
@@ -113,13 +115,30 @@ def run_property(prop, tier, seed):
         if any(m[1] == "gen" for m in r["mismatches"]):
             raise vlib.ToolError("generator produced an input the specification's well-formedness predicate rejects: %s line %d"
                                  % (r["path"], [m for m in r["mismatches"] if m[1] == "gen"][0][0]))
-        bad = [m for m in r["mismatches"] if m[1] in reasons]
+        tags = rc.get("tags")
+        only = rc.get("only_reasons_by_tag", {})
+        bad = [m for m in r["mismatches"] if m[1] in reasons and (tags is None or m[2] in tags)
+               and (m[1] not in only or m[2] in only[m[1]])]
+        other = [m for m in r["mismatches"] if m not in bad and m[1] != "gen"]
+        if other:
+            cov.setdefault("mismatches_of_other_properties", []).extend(["%s:%s" % (m[1], m[2]) for m in other[:5]])
         if bad:
             lines = vlib.read_lines(r["path"])
-            for k, (ln, why) in enumerate(bad[:3]):
+            for k, (ln, why, _tag) in enumerate(bad[:3]):
                 ops = vlib.events_to_ops(vlib.session_around(lines, ln))
                 violations.append(("B-%s-%d-%d" % (r["family"], r["seed"], ln), ops,
                                    {"rejected_line": ln, "reason": why, "event": json.loads(lines[ln - 1])}))
+        # distinct non-trivial cases of this trace: distinct (operation, arguments) that reached a crate call
+        if lines is None:
+            lines = vlib.read_lines(r["path"])
+        for ln in lines:
+            if '"res":' in ln:
+                e = json.loads(ln)
+                ok_out = e["res"].get("out")
+                for k in ("res", "allocs", "maxalloc", "io", "calls", "faulted"):
+                    e.pop(k, None)
+                distinct.add(hash(json.dumps(e, sort_keys=True)))
+                outcomes[ok_out] = outcomes.get(ok_out, 0) + 1
         if len(cov["samples"]) < 4 and r["events"] > 2:
             if lines is None:
                 lines = vlib.read_lines(r["path"])
@@ -143,6 +162,9 @@ def run_property(prop, tier, seed):
     for tag, ops, note in real[:5]:
         p = vlib.write_replay(prop, "%s-%d-%s" % (tier, seed, tag), ops, note)
         paths.append(p)
+    cov["evaluations"] = cov["cases_replayed"] + cov["events_validated"]
+    cov["distinct_nontrivial"] = cov["cases_replayed"] + len(distinct)
+    cov["outcome_histogram"] = outcomes
     cov["violations_found"] = len(real)
     cov["known_findings_hit"] = sorted(seen)
     if not cov["samples"]:
